@@ -412,12 +412,55 @@ def rooted_locals(fn):
     return out
 
 
+def dst_producers(prog, cg, prod):
+    """{function name: parameter index}: functions that return their `dst` parameter, allocating a
+    fresh object into it when the caller passed NULL - a call with a literal NULL there is a producer"""
+    out = {}
+    for fn in cg.funcs:
+        if fn.ret_type != "struct sexp_struct *":
+            continue
+        rets = [fn.strip(nd["c"][0]) for nd in fn.nodes if nd["k"] == "ret" and nd.get("c")]
+        if not rets:
+            continue
+        vids = set()
+        for r in rets:
+            rn = fn.nodes[r]
+            vids.add(rn.get("d") if rn["k"] == "ref" else None)
+        if len(vids) != 1 or None in vids:
+            continue
+        vid = vids.pop()
+        if vid not in fn.params:
+            continue
+        fresh = False
+        for nd in fn.nodes:
+            if nd["k"] == "bin" and nd["o"] == "=":
+                l, r = fn.strip(nd["c"][0]), fn.strip(nd["c"][1])
+                if fn.nodes[l]["k"] == "ref" and fn.nodes[l].get("d") == vid and fn.nodes[r]["k"] == "call" and \
+                        (fn.nodes[r].get("o") in prod or fn.nodes[r].get("o") in ALLOC_PRIMS):
+                    fresh = True
+        if fresh:
+            out[fn.name] = fn.params.index(vid)
+    return out
+
+
 def run_r3a(prog, res, cg, must=None, prod=None):
     from cfg import elem_positions, enclosing_elem, dominators, dominates, redefined_between
     stat = res.stat("C02.R3a", "a freshly allocated object held only in an unrooted C local is not used after a later "
                     "allocation in the same function", floor=100)
     must = must or must_alloc_functions(prog, cg)
     prod = prod or producers(prog, cg, strict=False)
+    dstp = dst_producers(prog, cg, prod)
+
+    def fresh_call(fn, rhs):
+        rn = fn.nodes[rhs]
+        if rn["k"] != "call":
+            return False
+        if rn.get("o") in prod:
+            return True
+        k = dstp.get(rn.get("o"))
+        if k is not None and k + 1 < len(rn["c"]):
+            return fn.const_val(rn["c"][k + 1]) == 0
+        return False
     for fn in prog.all_funcs():
         if fn.unit.name in ("main.c",) or fn.unit.display.startswith("tests/"):
             continue       # drivers / embedding test programs, not library code
@@ -432,16 +475,28 @@ def run_r3a(prog, res, cg, must=None, prod=None):
                     vid, rhs = fn.nodes[l]["d"], fn.strip(nd["c"][1])
             elif nd["k"] == "decl" and "d" in nd and nd.get("c"):
                 vid, rhs = nd["d"], fn.strip(nd["c"][0])
-            if vid is None or vid in fn.params or vid in rooted:
+            if vid is None or vid in rooted:
                 continue
             if fn.var_type(vid) != "struct sexp_struct *":
                 continue
-            if fn.nodes[rhs]["k"] == "call" and fn.nodes[rhs].get("o") in prod:
+            if fresh_call(fn, rhs):
                 defs.append((i, vid, rhs))
         if not defs:
             continue
         pos = elem_positions(fn)
         dom = dominators(fn)
+        from cfg import block_reach
+        _br = {}
+
+        def reaches(pa, pb):
+            """position b can execute after position a"""
+            if pa is None or pb is None:
+                return False
+            if pa[0] == pb[0] and pa[1] < pb[1]:
+                return True
+            if pa[0] not in _br:
+                _br[pa[0]] = block_reach(fn, pa[0])
+            return pb[0] in _br[pa[0]]
         allocs = [i for i, nd in enumerate(fn.nodes) if nd["k"] == "call" and nd.get("o") in must]
         for (d, vid, rhs) in defs:
             stat.sites += 1
@@ -459,6 +514,9 @@ def run_r3a(prog, res, cg, must=None, prod=None):
             for i, nd in enumerate(fn.nodes):
                 if nd["k"] == "bin" and nd["o"] == "=":
                     r = fn.strip(nd["c"][1])
+                    # chained assignment  X->f = v = make(...)  publishes v as it is defined
+                    if fn.nodes[r]["k"] == "bin" and fn.nodes[r]["o"] == "=":
+                        r = fn.strip(fn.nodes[r]["c"][0])
                     if fn.nodes[r]["k"] == "ref" and fn.nodes[r].get("d") == vid:
                         l = fn.strip(nd["c"][0])
                         ln = fn.nodes[l]
@@ -471,25 +529,31 @@ def run_r3a(prog, res, cg, must=None, prod=None):
                         if fn.nodes[a0]["k"] == "ref" and fn.nodes[a0].get("d") == vid and nd.get("o") not in must:
                             pass
             bad = None
+            from cfg import reach_without, local_defs
+            kills = set()
+            for (dn, _r) in local_defs(fn, vid):
+                pk = enclosing_elem(fn, dn, pos)
+                if pk is not None and pk != pd:
+                    kills.add(pk)
+            pubs = set(p for p in published if p)
             for c in allocs:
                 if c == rhs or c in fn.subtree(d):
                     continue
                 pc = enclosing_elem(fn, c, pos)
-                if not (pd and pc and dominates(dom, pd, pc)):
+                if not (pd and pc):
                     continue
                 cargs = fn.nodes[c]["c"][1:]
                 # allocating *through* the fresh object (a new context) marks it first
                 if cargs and fn.nodes[fn.strip(cargs[0])]["k"] == "ref" and fn.nodes[fn.strip(cargs[0])].get("d") == vid:
                     continue
-                if any(p and dominates(dom, p, pc) for p in published):
-                    continue
-                if redefined_between(fn, vid, pd, pc, pos):
+                # some path definition -> allocation on which the local is neither overwritten nor published
+                if not reach_without(fn, pd, pc, kills | pubs):
                     continue
                 for r in reads:
                     pr = enclosing_elem(fn, r, pos)
                     if r in fn.subtree(c):
                         continue      # passed to the allocating call itself: R3b's business
-                    if pr and dominates(dom, pc, pr) and not redefined_between(fn, vid, pc, pr, pos):
+                    if pr and reach_without(fn, pc, pr, kills | {pd}):
                         bad = (c, r)
                         break
                 if bad:
